@@ -10,10 +10,11 @@ from vlib import core  # noqa: E402
 
 
 def checks():
-    from vlib import fam_import
+    from vlib import fam_import, fam_chroot
     table = {
         "C05": fam_import.check_c05,
         "C06": fam_import.check_c06,
+        "C18": fam_chroot.check_c18,
     }
     for mod, names in OPTIONAL:
         try:
